@@ -154,6 +154,14 @@ Section System.
       n_role (nodes s id) = Follower ->
       mstep s (add_msgs (set_node s id (fst (handle_heartbeat id m (nodes s id))))
                         (snd (handle_heartbeat id m (nodes s id))))
+  (* a follower handles MsgSnap of its term *)
+  | M_snapshot : forall id m,
+      In m (msgs s) -> m_type m = MsgSnap -> m_to m = id -> m_term m = n_term (nodes s id) ->
+      n_role (nodes s id) = Follower ->
+      mstep s (set_ga (add_msgs (set_node s id (fst (handle_snapshot id m (nodes s id))))
+                                (snd (handle_snapshot id m (nodes s id))))
+                      id (n_term (nodes s id))
+                      (Nat.max (ga s id (n_term (nodes s id))) (app_ack (snd (handle_snapshot id m (nodes s id))))))
   (* sending *)
   | M_emit : forall id m,
       emit_okb id (nodes s id) m = true -> mstep s (add_msgs s [m])
